@@ -553,7 +553,7 @@ def c08_run_item(prop, item, seed, tier):
                 c08_judge(ctx, b, model, ep, case, twin_b)
 
         hyp.drive({"key": episodes.keys(),
-                   "plan": episodes.plans(max_len=40, styles=("legal", "survive", "solve", "legal"), min_len=3)},
+                   "plan": episodes.plans(max_len=40, styles=("legal", "survive_only", "solve", "legal"), min_len=3)},
                   one, seed, item["n"])
     return ctx.result()
 
@@ -620,8 +620,9 @@ def c10_work_items(tier, flt):
         if flt and flt.get("entry"):
             labels = [l for l in labels if l in flt["entry"]]
         for label in labels:
-            items.append({"env": env, "entry": label, "batch": 128 if tier == "quick" else 256,
-                          "n": max(1, int((1 if tier == "quick" else 8) * scale)), "cost": HEAVY.get(env, 1)})
+            # n >= 2: Hypothesis' first example is always the minimal base key (0, 0)
+            items.append({"env": env, "entry": label, "batch": 64 if tier == "quick" else 256,
+                          "n": max(2, int((2 if tier == "quick" else 8) * scale)), "cost": HEAVY.get(env, 1)})
     return items
 
 
